@@ -26,6 +26,7 @@ Names are mapped back to numbers: K<c> -> c, ext.E<n> -> n.
 import inspect
 import json
 import re
+import signal
 import sys
 import types
 
@@ -300,12 +301,24 @@ def observe_python(case):
     return out
 
 
+class Timeout(Exception):
+    pass
+
+
+def _alarm(signum, frame):
+    raise Timeout('the run did not finish within 60 s')
+
+
 def run_case(case, want_src):
     src = gen_sources(case)
     impl = {'crash': None, 'classes': {}}
+    signal.signal(signal.SIGALRM, _alarm)
     try:
+        signal.setitimer(signal.ITIMER_REAL, 60)
         impl['classes'] = observe_impl(case, src)
+        signal.setitimer(signal.ITIMER_REAL, 0)
     except BaseException as e:  # noqa -- a crash of the run is an observation, not a worker failure
+        signal.setitimer(signal.ITIMER_REAL, 0)
         if isinstance(e, (KeyboardInterrupt, SystemExit)):
             raise
         impl['crash'] = '%s: %s' % (type(e).__name__, str(e)[:200])
